@@ -37,9 +37,11 @@ class NonMultiplicativeQuantity(Generic[MagnitudeT], PlainQuantity[MagnitudeT]):
         if "delta_" + unit in deltas:
             return True
         # Look for delta units with same dimension as the offset unit
-        offset_unit_dim = self._get_unit_definition(unit).reference
+        get_dim = self._REGISTRY._get_dimensionality
+        offset_unit_dim = get_dim(self._get_unit_definition(unit).reference)
         return any(
-            self._get_unit_definition(d).reference == offset_unit_dim for d in deltas
+            get_dim(self._get_unit_definition(d).reference) == offset_unit_dim
+            for d in deltas
         )
 
     def _ok_for_muldiv(self, no_offset_units: int | None = None) -> bool:
